@@ -5,13 +5,13 @@ go 1.26
 require (
 	github.com/aperturerobotics/util v0.0.0
 	github.com/cenkalti/backoff/v4 v4.3.0
+	github.com/sirupsen/logrus v1.9.3
 )
 
 require (
 	github.com/aperturerobotics/json-iterator-lite v1.0.0 // indirect
 	github.com/aperturerobotics/protobuf-go-lite v0.8.0 // indirect
 	github.com/pkg/errors v0.9.1 // indirect
-	github.com/sirupsen/logrus v1.9.3 // indirect
 	golang.org/x/exp v0.0.0-20241108190413-2d47ceb2692f // indirect
 	golang.org/x/sys v0.13.0 // indirect
 )
